@@ -80,6 +80,10 @@ func (ex *Exec) pureBlock(st *State, b *ssa.BasicBlock, rt types.Type, pc Term, 
 				st.regs[x] = ex.builtin(st, x, bi, &x.Call)
 				continue
 			}
+			if v, ok := ex.pureContractCall(st, x, pc); ok {
+				st.regs[x] = v
+				continue
+			}
 			unsup("call to %s inside a pure closure", x.Call.Value.Name())
 		case *ssa.RunDefers, *ssa.DebugRef:
 		case *ssa.MapUpdate, *ssa.Defer, *ssa.Go, *ssa.Send:
